@@ -321,7 +321,7 @@ def copy_cases(draw):
 
 
 def subs(tier):
-    return [Sub("norm", norm_cases(), run_norm, quick=9600, thorough=40000),
-            Sub("moments", moment_cases(), run_moments, quick=6400, thorough=30000),
-            Sub("isolation", iso_cases(), run_isolation, quick=4800, thorough=20000),
-            Sub("copy", copy_cases(), run_copy, quick=4800, thorough=20000)]
+    return [Sub("norm", norm_cases(), run_norm, quick=9600, thorough=300000),
+            Sub("moments", moment_cases(), run_moments, quick=6400, thorough=200000),
+            Sub("isolation", iso_cases(), run_isolation, quick=4800, thorough=150000),
+            Sub("copy", copy_cases(), run_copy, quick=4800, thorough=150000)]
